@@ -976,10 +976,14 @@ pub fn run(out_prefix: &str, shards: usize, family: &str, seed: u64, scale: usiz
                 .collect();
             let bhays = gen::all_hays(b"ab", 3);
             for (pi, pats) in small.iter().enumerate() {
-                if pats.is_empty() || (scale < 2 && pi % 3 != 0) {
+                if pats.is_empty() {
                     continue;
                 }
-                for &mk in &f.mks {
+                for (mi, &mk) in f.mks.iter().enumerate() {
+                    // (quick tier: each list under one match kind, rotating)
+                    if scale < 2 && (pi + mi) % 3 != 0 && f.mks.len() == 3 {
+                        continue;
+                    }
                     let repr = ["top-auto", "nc", "c", "dfa"][pi % 4];
                     let c = Ctx::new(pats, mk, repr);
                     let rep: Vec<String> = (0..pats.len()).map(|k| ["", "X", "\u{e9}y"][(k + pi) % 3].to_string()).collect();
@@ -1004,6 +1008,39 @@ pub fn run(out_prefix: &str, shards: usize, family: &str, seed: u64, scale: usiz
                                 ev_replace_bytes(r, s, h, &repb, stop);
                             }
                             r.flush(h, (0, h.len()));
+                        }
+                    });
+                }
+            }
+            // every way of cutting a 2-, 3- and 4-byte character in two (and three) byte patterns:
+            // matches that start or end inside the character, adjacent to each other
+            for (ci_, ch) in ["\u{e9}", "\u{20ac}", "\u{1F600}", "\u{2000}"].iter().enumerate() {
+                let b = ch.as_bytes();
+                let mut lists: Vec<Pats> = vec![];
+                for k in 1..b.len() {
+                    lists.push(vec![b[..k].to_vec(), b[k..].to_vec()]);
+                    lists.push(vec![b[k..].to_vec(), b[..k].to_vec()]);
+                    lists.push(vec![b[k..].to_vec()]);
+                    lists.push(vec![b[..k].to_vec()]);
+                    lists.push(vec![b[k..k + 1].to_vec()]);
+                    for j in k + 1..b.len() {
+                        lists.push(vec![b[..k].to_vec(), b[k..j].to_vec(), b[j..].to_vec()]);
+                    }
+                }
+                for (li, pats) in lists.iter().enumerate() {
+                    let mk = f.mks[(li + ci_) % f.mks.len()];
+                    let c = Ctx::new(pats, mk, REPRS_ALL[(li + ci_) % REPRS_ALL.len()]);
+                    let rep: Vec<String> = (0..pats.len()).map(|k| ["<>", "", "\u{e9}"][(k + li) % 3].to_string()).collect();
+                    let repb: Vec<Vec<u8>> = rep.iter().map(|x| x.as_bytes().to_vec()).collect();
+                    let hays: Vec<String> = vec![format!("a{}b", ch), format!("{}", ch), format!("{}{}", ch, ch), format!("x{}y{}", ch, ch), format!("{}!", ch)];
+                    with_ctx(&mut out, &mut stats, &c, &mut |r, s| {
+                        for hs in &hays {
+                            ev_replace_str(r, s, hs, &rep, 0, true);
+                            for stop in 0..=2 {
+                                ev_replace_str(r, s, hs, &rep, stop, false);
+                            }
+                            ev_replace_bytes(r, s, hs.as_bytes(), &repb, 0);
+                            r.flush(hs.as_bytes(), (0, hs.len()));
                         }
                     });
                 }
